@@ -16,6 +16,7 @@ use dmntk_feel::{Evaluator, FeelNumber, Name, Scope};
 use serde_json::json;
 
 pub fn eval_text(scope: &Scope, text: &str) -> Value {
+  crate::util::note_case(text);
   match dmntk_feel_parser::parse_expression(scope, text, false) {
     Ok(node) => dmntk_feel_evaluator::evaluate(scope, &node).unwrap_or(Value::Null(Some("build error".into()))),
     Err(_) => Value::Null(Some("parse error".into())),
